@@ -161,6 +161,7 @@ func execute(seed int64, scenario string, o ExecOpts) (res *Result) {
 	simrt.SimRand = uint64(seed)*40503 + 0x632be59bd9b4e019 | 1
 	simrt.SimMapSeed = uint64(seed)*0x9e3779b1 + 0x7f4a7c159e3779b9 | 1
 	simrt.SimIter = uint64(seed)*0x85ebca6b + 0xc2b2ae3d27d4eb4f | 1
+	simrt.SimMath = uint64(seed)*0xff51afd7 + 0xed558ccd165667b1 | 1
 	simrt.SimNoPreempt = 1
 	simrt.SetMode(simrt.ModeCoarse)
 	r.Start = time.Now()
@@ -184,7 +185,7 @@ func execute(seed int64, scenario string, o ExecOpts) (res *Result) {
 		}
 	}()
 	simrt.SetMode(simrt.ModeOff)
-	simrt.SimSeed, simrt.SimRand, simrt.SimMapSeed, simrt.SimIter = 0, 0, 0, 0
+	simrt.SimSeed, simrt.SimRand, simrt.SimMapSeed, simrt.SimIter, simrt.SimMath = 0, 0, 0, 0, 0
 
 	// C27 is checked on every run of every scenario; a run is non-trivial for it when it went
 	// through a failure, deadline, corruption or missing-filter path (where the engine logs).
@@ -272,6 +273,7 @@ func TestSim(t *testing.T) {
 		synctest.Test(t, func(t *testing.T) {
 			// Warm-up run, discarded (one-time lazy initialisation happens here).
 			execute(424242, warmupScenario(scenario), ExecOpts{})
+			warmLibrary()
 			switch {
 			case os.Getenv("SIM_REPLAY") != "":
 				var rf ReplayFile
